@@ -35,6 +35,7 @@ Star(x)   == [k |-> "star", x |-> x]             \* x*
 Plus(x)   == [k |-> "plus", x |-> x]             \* x+
 Opt(x)    == [k |-> "opt", x |-> x]              \* x?
 Rep01(x)  == [k |-> "rep01", x |-> x]            \* x{0,1}
+Grp(n, x) == [k |-> "grp", n |-> n, x |-> x]     \* (x), the n-th capturing group (numbered by opening parenthesis)
 
 RECURSIVE Ends(_, _, _)
 RECURSIVE Closure(_, _, _)
@@ -55,6 +56,7 @@ Ends(re, s, i) ==
     [] re.k = "plus"   -> Closure(re.x, s, Ends(re.x, s, i))
     [] re.k = "opt"    -> {i} \cup Ends(re.x, s, i)
     [] re.k = "rep01"  -> {i} \cup Ends(re.x, s, i)
+    [] re.k = "grp"    -> Ends(re.x, s, i)                          \* capturing does not change what matches
 
 \* unanchored search, as regexp.Match does
 Search(re, s) == \E i \in 1..(Len(s) + 1) : Ends(re, s, i) # {}
@@ -71,6 +73,66 @@ Accept(f, s) ==
   /\ (f.notSub # <<>>    => ~Contains(s, f.notSub))
   /\ (f.regex.k # "none"    => Search(f.regex, s))
   /\ (f.notRegex.k # "none" => ~Search(f.notRegex, s))
+
+\* ------------------------------------------ submatches and output templates
+\* An aggregation names its output by a template that may refer to what the capturing groups of
+\* the regex matched (RE2: leftmost match, alternatives and greedy quantifiers tried in priority
+\* order).  Paths(re, s, i, c) is the sequence, in priority order, of all ways re matches at i:
+\* [e |-> end position, c |-> captures so far (group number -> <<from, to>>)].
+SetCap(c, n, b, e) == [g \in DOMAIN c \cup {n} |-> IF g = n THEN <<b, e>> ELSE c[g]]
+One(e, c) == <<[e |-> e, c |-> c]>>
+RECURSIVE Paths(_, _, _, _)
+RECURSIVE Then(_, _, _, _)
+RECURSIVE Iter(_, _, _, _)
+RECURSIVE IterAll(_, _, _, _)
+Paths(re, s, i, c) ==
+  CASE re.k \in {"lit", "any", "class", "nclass", "bol", "eol"} ->
+            IF Ends(re, s, i) = {} THEN <<>> ELSE One(CHOOSE j \in Ends(re, s, i) : TRUE, c)
+    [] re.k = "cat"    -> Then(re.y, s, Paths(re.x, s, i, c), 1)
+    [] re.k = "alt"    -> Paths(re.x, s, i, c) \o Paths(re.y, s, i, c)
+    [] re.k \in {"opt", "rep01"} -> Paths(re.x, s, i, c) \o One(i, c)
+    [] re.k = "star"   -> Iter(re.x, s, i, c)
+    [] re.k = "plus"   -> Paths(Cat(re.x, Star(re.x)), s, i, c)
+    [] re.k = "grp"    -> LET ps == Paths(re.x, s, i, c)
+                          IN [k \in 1..Len(ps) |-> [e |-> ps[k].e, c |-> SetCap(ps[k].c, re.n, i, ps[k].e)]]
+Then(y, s, ps, k) == IF k > Len(ps) THEN <<>> ELSE Paths(y, s, ps[k].e, ps[k].c) \o Then(y, s, ps, k + 1)
+\* greedy x*: prefer one more (non-empty) x, then stopping here
+Iter(x, s, i, c) == IterAll(x, s, SelectSeq(Paths(x, s, i, c), LAMBDA p : p.e > i), 1) \o One(i, c)
+IterAll(x, s, ps, k) == IF k > Len(ps) THEN <<>> ELSE Iter(x, s, ps[k].e, ps[k].c) \o IterAll(x, s, ps, k + 1)
+
+RECURSIVE FirstFrom(_, _, _)
+FirstFrom(re, s, i) == IF i > Len(s) + 1 THEN <<>>
+                       ELSE LET ps == Paths(re, s, i, <<>>)
+                            IN IF ps # <<>> THEN <<[b |-> i, e |-> ps[1].e, c |-> ps[1].c]>> ELSE FirstFrom(re, s, i + 1)
+\* <<>> if re does not match anywhere in s, else <<the leftmost-first match>>
+Submatch(re, s) == FirstFrom(re, s, 1)
+
+\* a template is a sequence of parts
+TLit(cs)  == [k |-> "lit", cs |-> cs]            \* literal text (no $)
+TRef(n)   == [k |-> "ref", n |-> n]              \* ${n}
+TWord(w)  == [k |-> "word", w |-> w]             \* $w with w the longest run of letters, digits and _ after the $:
+                                                 \* group number w if w is a number, else the group NAMED w (none of ours is named)
+Digits == <<"0", "1", "2", "3", "4", "5", "6", "7", "8", "9">>
+IsNum(w) == w # <<>> /\ \A i \in DOMAIN w : w[i] \in Range(Digits)
+RECURSIVE NumFrom(_, _, _)
+NumFrom(w, i, acc) == IF i > Len(w) THEN acc ELSE NumFrom(w, i + 1, 10 * acc + (CHOOSE d \in 1..10 : Digits[d] = w[i]) - 1)
+\* text of group n of match m in s; a group that does not exist or did not take part is empty
+GroupText(s, m, n) == IF n = 0 THEN SubSeq(s, m.b, m.e - 1)
+                      ELSE IF n \in DOMAIN m.c THEN SubSeq(s, m.c[n][1], m.c[n][2] - 1) ELSE <<>>
+PartText(p, s, m) == CASE p.k = "lit"  -> p.cs
+                       [] p.k = "ref"  -> GroupText(s, m, p.n)
+                       [] p.k = "word" -> IF IsNum(p.w) THEN GroupText(s, m, NumFrom(p.w, 1, 0)) ELSE <<>>
+RECURSIVE ExpandFrom(_, _, _, _)
+ExpandFrom(t, s, m, i) == IF i > Len(t) THEN <<>> ELSE PartText(t[i], s, m) \o ExpandFrom(t, s, m, i + 1)
+\* the output name of an aggregation with regex f.regex and template t for input name s (<<>> if the regex does not match)
+OutKey(f, t, s) == LET m == Submatch(f.regex, s) IN IF m = <<>> THEN <<>> ELSE ExpandFrom(t, s, m[1], 1)
+
+RECURSIVE RenderTmplFrom(_, _)
+RenderTmplFrom(t, i) == IF i > Len(t) THEN ""
+                        ELSE (CASE t[i].k = "lit"  -> Flat(t[i].cs)
+                                [] t[i].k = "ref"  -> "${" \o Digits[t[i].n + 1] \o "}"               \* n <= 9
+                                [] t[i].k = "word" -> "$" \o Flat(t[i].w)) \o RenderTmplFrom(t, i + 1)
+RenderTmpl(t) == RenderTmplFrom(t, 1)
 
 \* ----------------------------------------------------- rendering to RE2
 \* binding strength: alt 0 < cat 1 < quantified 2 < atom 3
@@ -96,6 +158,7 @@ RenderAt(re, lvl) ==
           [] re.k = "plus"   -> RenderAt(re.x, 3) \o "+"
           [] re.k = "opt"    -> RenderAt(re.x, 3) \o "?"
           [] re.k = "rep01"  -> RenderAt(re.x, 3) \o "{0,1}"
+          [] re.k = "grp"    -> "(" \o RenderAt(re.x, 0) \o ")"
   IN IF Prec(re) < lvl THEN "(?:" \o body \o ")" ELSE body
 Render(re) == IF re.k = "none" THEN "" ELSE RenderAt(re, 0)
 
